@@ -18,6 +18,21 @@ TEXTS = {
         "note": TB + "The table, Finished/Stopped/Valid sets, controller targets are extracted from source on every run.",
         "technique": "Lean 4 proof over regenerated table (decide + lifting lemma) + exhaustive differential check of the controller",
     },
+    "C04": {
+        "text": "Kernel-checked over the engine model (stepHandle = stepConsumer, gate operators REGENERATED from step.go): an announcement older than the record returned by the store writes nothing, "
+                "consumes no user-function outcome, does not depend on the step function at all, and returns normally (ack); a newer one fails without write/invocation and the consume loop moves no cursor; "
+                "redelivering any list of old announcements, any number of times, in any order, to any shards, under any fault plans leaves runs/outbox/log/timers unchanged (induction). The engine model is tied to the code "
+                "by co-simulation of the real workflow under a gated simulator (adversarial stream: rewinds, duplicates; stale reads) against the compiled Lean model, line by line.",
+        "note": TB + "Current reads assumed for 'acted only when current'; lagging-equal reads are the listed finding F16.",
+        "technique": "Lean 4 proof (handler-level theorems for all fault plans + induction over delivery lists) + co-simulation under an adversarial stream",
+    },
+    "C05": {
+        "text": "Kernel-checked over the whole engine model: RelayInv (every write pending or published; everything published/pending was written; entries unique) holds in EVERY reachable state - any interleaving of "
+                "writers with relay cycles, any fault plan (error before/after effect, crash at any adapter call) inside every operation, any batch size/limit; an entry that disappears was accepted by the streamer; "
+                "a failure leaves the entry in place. Proved via a preservation logic for the fault-injected operation monad plus a shape lemma for one relay step. Tie: T2 order of purgeOutbox; co-simulation; relay monitor on the real code.",
+        "note": TB,
+        "technique": "Lean 4 proof (invariant over all reachable states, all fault plans) + co-simulation with fault injection at every relay call",
+    },
     "C06": {
         "text": "Kernel-checked for every record (all Int run states incl. out of range, all Int statuses, all names): topic selection of MakeOutboxEventData (if-chain regenerated from event.go), "
                 "injectivity of status topics (decimal rendering is injective), pairwise disjointness of status/delete/run-state-change topics, headers carry run ID, foreign ID, run state, version. "
@@ -35,7 +50,7 @@ TEXTS = {
 }
 
 NOT_APPLICABLE = {p: "check under construction in this session (engine model + simulator not yet committed); will be claimed once its theorems and tie exist" for p in
-                  ["C01", "C04", "C05", "C07", "C08", "C09", "C11", "C12", "C13", "C14", "C15", "C16", "C17", "C18", "C19", "C20"]}
+                  ["C01", "C07", "C08", "C09", "C11", "C12", "C13", "C14", "C15", "C16", "C17", "C18", "C19", "C20"]}
 
 NOTES = ("One engine: Lean 4 model + theorems, regenerated facts (T1/T2), co-simulation (T3). ./check <id> quick|thorough; ./check replay <path>. "
          "known-findings.json lists genuine defects that are recorded rather than repaired.")
